@@ -8,7 +8,7 @@
    from the application's call on one side to the handler / subscriber / awaitable on the other. *)
 From Coq Require Import NArith List Bool Init.Byte.
 From RSV Require Import gen.GenConst lib.Bytes model.Frame model.Parser model.Fragmenter model.SendQueue model.Pipeline
-     model.Endpoint model.Network proofs.FragmenterProofs proofs.SendQueueProofs proofs.PipelineProofs proofs.NetworkProofs proofs.NetworkRequests proofs.NetworkExact.
+     model.Endpoint model.Network proofs.FragmenterProofs proofs.SendQueueProofs proofs.PipelineProofs proofs.PipelinePrio proofs.NetworkProofs proofs.NetworkRequests proofs.NetworkExact.
 Import ListNotations.
 Open Scope N_scope.
 
@@ -38,6 +38,35 @@ Theorem C01_end_to_end : forall bk size lenreq ls chunks k,
   Forall2 delivered_as (on k (enqueued ls)) (on k (receive bk chunks)).
 Proof. exact end_to_end. Qed.
 Print Assumptions C01_end_to_end.
+
+(* The same for histories WITH send_priority_frame calls (SETUP is queued that way, on stream 0, possibly while requests are
+   already waiting — connect and every reconnect): for every stream k no priority frame is queued on, and asking only that
+   what was queued for stream k itself has been written. *)
+Theorem C01_end_to_end_with_priority : forall bk size lenreq ls chunks k,
+  size_ok size -> Forall (fun l => match l with QPrio f => fsid f <> k | _ => True end) ls ->
+  let s := qrun size lenreq ls in
+  pending (q s) k = [] ->
+  Forall (fun f => wf f = true /\ lenN (encode f) < 2 ^ 24) (wire s) ->
+  concat chunks = wire_bytes (wire s) ->
+  Forall2 delivered_as (on k (enqueued ls)) (on k (receive bk chunks)).
+Proof. exact end_to_end_prio. Qed.
+Print Assumptions C01_end_to_end_with_priority.
+
+Theorem C01_end_to_end_messages_with_priority : forall size lenreq ls k,
+  size_ok size -> Forall (fun l => match l with QPrio f => fsid f <> k | _ => True end) ls ->
+  let s := qrun size lenreq ls in
+  pending (q s) k = [] ->
+  Forall2 delivered_as (on k (enqueued ls)) (on k (snd (rx [] (map norm (wire s))))).
+Proof. exact end_to_end_messages_prio. Qed.
+Print Assumptions C01_end_to_end_messages_with_priority.
+
+(* non-vacuity: a fragmented request partly written, then a priority frame, then the rest: stream 1 is written out *)
+Theorem C01_priority_example :
+  let s := qrun (Some 64) true ex_prio in
+  prio_off 1 ex_prio /\ ~ no_prio ex_prio /\ pending (q s) 1 = [] /\
+  map ftype (wire s) = [FT_REQUEST_RESPONSE; FT_KEEPALIVE; FT_PAYLOAD; FT_PAYLOAD].
+Proof. exact end_to_end_prio_example. Qed.
+Print Assumptions C01_priority_example.
 
 (* message framing (one frame per message) *)
 Theorem C01_end_to_end_messages : forall size lenreq ls k,
